@@ -189,7 +189,7 @@ def getitem(interp, obj, idx, frame):
       return obj[c]
     raise unsupported(f'list index {idx!r}')
   if isinstance(obj, dict):
-    if is_concrete(idx):
+    if is_concrete(idx) or isinstance(idx, SObj):
       try:
         return obj[idx]
       except KeyError:
@@ -276,7 +276,8 @@ def setitem(interp, obj, idx, v, frame):
       return
     raise unsupported('list store with symbolic index')
   if isinstance(obj, dict):
-    if is_concrete(idx):
+    if is_concrete(idx) or isinstance(idx, SObj):
+      # SObj keys: identity (heap objects are distinct unless the same object)
       obj[idx] = v
       return
     if isinstance(idx, SAny):
